@@ -1040,7 +1040,8 @@ def rw_path_canaries(toks, rep, qual, ex=None, unit_ret=False):
         key = "end:" + ("fn" if ob == 0 else "".join(t.text for t in out[max(ob - 12, 0):ob] if t.kind not in (WS, COMMENT))[-50:])
         occ[key] = occ.get(key, 0) + 1
         keys[cid] = f"{key}#{occ[key]}"
-        ins.append((cb, f" proof {{ if verif_canary({cid}) {{ assert(false); }} }} // @CANARY.path.{cid}\n"))
+        semi = "; " if out[pv].text == "}" else ""     # a block-like (or assignment-from-block) last statement of type ()
+        ins.append((cb, f" {semi}proof {{ if verif_canary({cid}) {{ assert(false); }} }} // @CANARY.path.{cid}\n"))
     for (pos, text) in sorted(ins, key=lambda x: -x[0]):
         out[pos:pos] = [T("raw", text)]
     if ids:
